@@ -49,6 +49,8 @@ type c07Case struct {
 	Resume    bool
 	Variant   string // multi | legacy-manifest | recvfile
 	Chunk     int
+	EmptyOut  bool     // the receiver is given "" as output directory and runs with the output directory as cwd
+	DirRec    []string // legacy protocol: path sent in the directory record of each directory item ("" = the manifest's)
 }
 
 func (c c07Case) String() string {
@@ -136,7 +138,9 @@ func genC07(t *rapid.T) c07Case {
 	}
 	c.M.FileCount, c.M.FolderCount = nf, nd
 	// which fields are hostile: mostly exactly one (attribution), sometimes several
-	fields := []string{"manifest.root", "dir.rel_path", "file.rel_path", "item.id", "filebegin.rel_path"}
+	fields := []string{"manifest.root", "dir.rel_path", "file.rel_path", "item.id", "filebegin.rel_path", "dirrecord.rel_path"}
+	c.EmptyOut = c.Variant != "recvfile" && rapid.IntRange(0, 3).Draw(t, "empty_outdir") == 2
+	c.DirRec = make([]string, nd)
 	nh := rapid.SampledFrom([]int{1, 1, 1, 1, 2, 3}).Draw(t, "nhostile")
 	chosen := map[string]bool{}
 	for i := 0; i < nh; i++ {
@@ -144,6 +148,9 @@ func genC07(t *rapid.T) c07Case {
 	}
 	if nd == 0 {
 		delete(chosen, "dir.rel_path")
+	}
+	if nd == 0 || c.Variant != "legacy-manifest" {
+		delete(chosen, "dirrecord.rel_path")
 	}
 	if len(chosen) == 0 {
 		chosen["manifest.root"] = true
@@ -187,6 +194,8 @@ func genC07(t *rapid.T) c07Case {
 			}
 		case "filebegin.rel_path":
 			c.BeginPath[0] = s
+		case "dirrecord.rel_path":
+			c.DirRec[0] = s
 		}
 	}
 	return c
@@ -328,9 +337,14 @@ func hostileSendLegacy(ctx context.Context, a *verifkit.MemConn, c c07Case) {
 	b = append(b, byte(len(mj)>>24), byte(len(mj)>>16), byte(len(mj)>>8), byte(len(mj)))
 	b = append(b, mj...)
 	k := 0
+	di := 0
 	for _, it := range c.M.Items {
 		p := it.RelPath
 		if it.IsDir {
+			if di < len(c.DirRec) && c.DirRec[di] != "" {
+				p = c.DirRec[di] // a record that does not say what the manifest announced
+			}
+			di++
 			b = append(b, 0x01, byte(len(p)>>8), byte(len(p)))
 			b = append(b, p...)
 			continue
@@ -373,6 +387,32 @@ func TestVerifC07Escape(t *testing.T) {
 		dir := caseDir("c07")
 		defer os.RemoveAll(dir)
 		sbx, out := buildSandbox(dir)
+		recvOut := out
+		if c.EmptyOut {
+			// receive "into the current directory": the output directory is the cwd and the
+			// receiver gets "". Absolute hostile paths are re-rooted into the sandbox so that a
+			// receiver that honours them is observed there (and cannot touch the real root).
+			reroot := func(s string) string {
+				if strings.HasPrefix(s, "/") {
+					return filepath.Join(sbx, "l1") + s
+				}
+				return s
+			}
+			c.M.Root = reroot(c.M.Root)
+			for i := range c.M.Items {
+				c.M.Items[i].RelPath = reroot(c.M.Items[i].RelPath)
+			}
+			for i := range c.BeginPath {
+				c.BeginPath[i] = reroot(c.BeginPath[i])
+			}
+			for i := range c.DirRec {
+				c.DirRec[i] = reroot(c.DirRec[i])
+			}
+			if wd, err := os.Getwd(); err == nil && os.Chdir(out) == nil {
+				defer os.Chdir(wd)
+				recvOut = ""
+			}
+		}
 		before := snapshot(sbx, out)
 		a, b := verifkit.NewMemPair(verifkit.MemOptions{})
 		ctx, cancel := context.WithTimeout(context.Background(), 5*time.Second)
@@ -381,12 +421,12 @@ func TestVerifC07Escape(t *testing.T) {
 			var err error
 			switch c.Variant {
 			case "multi":
-				_, err = transfer.RecvManifestMultiStream(ctx, verifnet.MemConnAdapter{C: b}, out, transfer.Options{Resume: c.Resume, NoRootDir: c.NoRootDir, HashAlg: "crc32c", ParallelFiles: 1})
+				_, err = transfer.RecvManifestMultiStream(ctx, verifnet.MemConnAdapter{C: b}, recvOut, transfer.Options{Resume: c.Resume, NoRootDir: c.NoRootDir, HashAlg: "crc32c", ParallelFiles: 1})
 			case "legacy-manifest":
 				var s transfer.Stream
 				s, err = verifnet.MemConnAdapter{C: b}.AcceptStream(ctx)
 				if err == nil {
-					_, err = transfer.RecvManifest(ctx, s, out, nil)
+					_, err = transfer.RecvManifest(ctx, s, recvOut, nil)
 				}
 			case "recvfile":
 				var s transfer.Stream
@@ -431,6 +471,9 @@ func TestVerifC07Escape(t *testing.T) {
 		after := snapshot(sbx, out)
 		rec.Eval()
 		rec.Class("variant/" + c.Variant)
+		if c.EmptyOut && recvOut == "" {
+			rec.Class("output-directory-given-as-empty-string")
+		}
 		for _, f := range c.Fields {
 			rec.Class("field/" + f)
 		}
